@@ -264,6 +264,24 @@ func init() {
 					off = Args{"tst": off["tst"], "from": float64(sh(off.Int("from"))), "to": float64(sh(off.Int("to")))}
 				}
 			}
+		case "forge_with_revocation_key":
+			// legacy LeaseSet: the attacker's public key in the structure's own signing_key field, the structure signed with the attacker's key
+			rs := slot{adv.Int("off"), adv.Int("len")}
+			if put(mut, rs, attacker.pub) {
+				asig, _ := attacker.sign(append(append([]byte{}, prefix...), mut[:sigslot.off]...))
+				put(mut, sigslot, asig)
+			}
+		case "transient_resign_after_offline_edit":
+			// whoever holds the (leaked, expired) transient key edits the offline block - its expiry - and signs the structure again with that key:
+			// the identity never authorised THIS block
+			if hasOff {
+				o := off.Int("from") + adv.Int("k")
+				if o >= 0 && o < len(mut) {
+					mut[o] ^= byte(adv.Int("mask"))
+					asig, _ := tkey.sign(append(append([]byte{}, prefix...), mut[:sigslot.off]...))
+					put(mut, sigslot, asig)
+				}
+			}
 		case "replace_sig":
 			asig, _ := attacker.sign(append(append([]byte{}, prefix...), mut[:sigslot.off]...))
 			put(mut, sigslot, asig)
